@@ -498,3 +498,196 @@ def apply_rule(prog, eff, chk, rid, gens=(1, 2), trigger_tables=None, library=Tr
                               '%s: the statement relates %s (names a %s) with %s (names a %s) by %s' % (
                                   short, l, dl, r, dr, how))
     return npairs
+
+
+# ---- identifier domains of C++ values: binds and call arguments -----------------------------------
+
+def _handle_domain(prog, spec_handles, type_or_cls):
+    """domain of id() of an object of this class / type string (via its base classes)."""
+    from .program import norm_type_name
+    t = norm_type_name(type_or_cls or '')
+    for junk in ('const ', '&', '*', 'std::optional<', 'std::shared_ptr<', '>'):
+        t = t.replace(junk, '')
+    t = t.strip()
+    seen = set()
+    work = [t]
+    while work:
+        c = work.pop()
+        if c in seen:
+            continue
+        seen.add(c)
+        if c in spec_handles and not c.startswith('_'):
+            return spec_handles[c]
+        r = prog.records.get(c)
+        if r is not None:
+            for b in (r.bases or []):
+                work.append(b if isinstance(b, str) else (b.get('type') or b.get('name') or ''))
+    return None
+
+
+def expr_domain(prog, handles, f, node, depth=0):
+    """identifier domain of a C++ expression, when it is the id() of a typed handle (directly or
+    through a local initialised with it); None when unknown."""
+    from .program import children, strip, walk
+    n = strip(node, explicit=True)
+    k = n.get('kind')
+    if k == 'CXXMemberCallExpr':
+        callee = strip(children(n)[0])
+        if callee.get('kind') == 'MemberExpr' and callee.get('name') == 'id' and len(children(n)) == 1:
+            recv = children(callee)[0] if children(callee) else None
+            r = strip(recv, explicit=True) if recv is not None else {}
+            if r.get('kind') == 'CXXThisExpr' or recv is None:
+                return _handle_domain(prog, handles, f.cls)
+            return _handle_domain(prog, handles, r.get('type') or (recv or {}).get('type'))
+        return None
+    if k == 'CXXOperatorCallExpr':
+        # (*opt).id() / opt->id() arrive as member calls on operator results: handled by the type string
+        return None
+    if k == 'DeclRefExpr' and depth < 3:
+        ref = n.get('referencedDecl') or {}
+        if ref.get('kind') == 'VarDecl' and f.body is not None:
+            for x in walk(f.body):
+                if x.get('kind') == 'VarDecl' and x.get('id') == ref.get('id'):
+                    init = [y for y in children(x) if not y['kind'].endswith('Attr') and not y['kind'].endswith('Comment')]
+                    if init:
+                        return expr_domain(prog, handles, f, init[-1], depth + 1)
+    if k == 'ConditionalOperator':
+        c = children(n)
+        ds = {expr_domain(prog, handles, f, c[1], depth + 1), expr_domain(prog, handles, f, c[2], depth + 1)}
+        ds.discard(None)
+        return ds.pop() if len(ds) == 1 else None
+    return None
+
+
+class BindTyping:
+    """use(F, i): the domains of the columns parameter i of F is bound against, in F's own
+    statements or (passed on unchanged) in those of its callees; checked against the domain of
+    what each call site passes and of what each statement binds directly."""
+
+    def __init__(self, prog, cg, eff, cats_by_version, versions):
+        from . import rowrules
+        self.prog, self.cg, self.eff = prog, cg, eff
+        self.handles = {k: v for k, v in json.load(open(SPEC)).get('handles', {}).items() if not k.startswith('_')}
+        self.doms = {}
+        for en in versions:
+            g = 2 if rowrules._gen2(en) else 1
+            self.doms.setdefault(g, []).append(Domains(cats_by_version[en], g))
+        self.funcs = [f for f in prog.functions.values() if f.body is not None and not f.is_pattern
+                      and '/schema/' not in (f.file or '') and prog.in_repo(f.file)]
+        self.maps = rowrules.expand_sites(prog, cg, eff, self.funcs)
+        self.use = {}          # (func key, param index) -> set(domain)
+        self.direct = []       # (func, site map, column, column domain, source domain)
+        self._collect()
+
+    def _gen(self, f):
+        q = f.qualname or ''
+        return 1 if '::v1::' in q else 2 if '::v2::' in q else None
+
+    def _coldom(self, f, table, col):
+        g = self._gen(f)
+        out = set()
+        for d in self.doms.get(g, []):
+            if table and d.known_table(table) and d.has_column(table, col):
+                x = d.domain(table, col)
+                if x:
+                    out.add(x)
+        return out
+
+    def _collect(self):
+        from .program import children, strip
+        for sm in self.maps:
+            f = sm.site.func
+            t = sm.stmt.table
+            pidx = {p.get('id'): i for i, p in enumerate(f.params)}
+            for col, src, role, p in sm.col_src:
+                if not col or not t or src is None:
+                    continue
+                cd = self._coldom(f, t, col)
+                if not cd:
+                    continue
+                if src.root and src.root[0] == 'param' and not src.path and not [v for v in src.via if not v.startswith('cast<')]:
+                    i = pidx.get(src.root[2])
+                    if i is not None:
+                        self.use.setdefault((f.key, i), set()).update(cd)
+                        continue
+                sd = expr_domain(self.prog, self.handles, f, src.node)
+                if sd:
+                    self.direct.append((f, sm, col, cd, sd))
+        # pass-through of parameters to callees, to a fixed point
+        self.calls = []        # (caller, call node, callee, [(arg index, arg node)])
+        for f in self.funcs:
+            pidx = {p.get('id'): i for i, p in enumerate(f.params)}
+            for e in self.cg.edges(f):
+                if e.node.get('kind') not in ('CallExpr', 'CXXMemberCallExpr') or not e.targets:
+                    continue
+                args = children(e.node)[1:]
+                for g in e.targets:
+                    if g.body is None or g.is_pattern and False:
+                        continue
+                    self.calls.append((f, e.node, g, args, pidx))
+        changed = True
+        rounds = 0
+        while changed and rounds < 8:
+            changed = False
+            rounds += 1
+            for f, node, g, args, pidx in self.calls:
+                for j, a in enumerate(args):
+                    if j >= len(g.params):
+                        break
+                    u = self.use.get((g.key, j))
+                    if not u:
+                        continue
+                    r = strip(a, explicit=True)
+                    if r.get('kind') == 'DeclRefExpr' and (r.get('referencedDecl') or {}).get('id') in pidx:
+                        i = pidx[r['referencedDecl']['id']]
+                        cur = self.use.setdefault((f.key, i), set())
+                        if not u <= cur:
+                            cur |= u
+                            changed = True
+
+    def judge(self):
+        """-> (oks, findings); each (where, text)."""
+        from .program import locstr
+        oks, finds = [], []
+        for f, sm, col, cd, sd in self.direct:
+            short = '::'.join((f.qualname or '').split('::')[-2:])
+            txt = '%s binds the id of a %s handle to %s.%s (%s)' % (short, sd, sm.stmt.table, col, '/'.join(sorted(cd)))
+            (oks if sd in cd else finds).append((locstr(sm.site.node), '%s|%s.%s' % (short, (sm.stmt.table or '').lower(), col.lower()), txt))
+        for f, node, g, args, pidx in self.calls:
+            for j, a in enumerate(args):
+                if j >= len(g.params):
+                    break
+                u = self.use.get((g.key, j))
+                if not u or len(u) > 1:
+                    continue     # unused, or a generic helper bound against columns of several kinds
+                sd = expr_domain(self.prog, self.handles, f, a)
+                if not sd:
+                    continue
+                short = '::'.join((f.qualname or '').split('::')[-2:])
+                gs = '::'.join((g.qualname or '').split('::')[-2:])
+                txt = '%s passes the id of a %s handle as argument %d (%s) of %s, which binds it against %s columns' % (
+                    short, sd, j + 1, g.params[j].get('name'), gs, '/'.join(sorted(u)))
+                (oks if u == {sd} else finds).append((locstr(node), '%s->%s|arg %s' % (short, gs, g.params[j].get('name')), txt))
+        return oks, finds
+
+
+def apply_bind_rule(prog, cg, eff, chk, rid, gens=(1, 2)):
+    """Report BindTyping on `chk`: one instance per statement bind / call argument whose C++ value
+    is the id() of a typed handle."""
+    from . import rowrules
+    from .rules import c13
+    cats = rowrules.version_catalogs(prog)
+    supported = [en for en in rowrules.enum_order(prog) if en in set(c13._supported(prog))]
+    vs = []
+    for g in gens:
+        gv = [en for en in supported if (2 if rowrules._gen2(en) else 1) == g]
+        if gv:
+            vs += [gv[0], gv[-1]] if len(gv) > 1 else gv
+    bt = BindTyping(prog, cg, eff, cats, vs)
+    oks, finds = bt.judge()
+    for loc, key, txt in oks:
+        chk.ok(rid, txt, loc)
+    for loc, key, txt in finds:
+        chk.violation(rid, key, loc, txt + ': an identifier of one kind of row is used where another kind is '
+                      'expected, so the statement matches the wrong rows or none')
+    return len(oks) + len(finds)
